@@ -5,6 +5,7 @@ import (
 	"flag"
 	"fmt"
 	"os"
+	"runtime/debug"
 	"strconv"
 	"strings"
 
@@ -13,6 +14,7 @@ import (
 )
 
 func main() {
+	debug.SetGCPercent(400)
 	tier := flag.String("tier", "quick", "quick or thorough")
 	replay := flag.String("replay", "", "replay file")
 	list := flag.Bool("list", false, "list properties")
